@@ -105,7 +105,7 @@ func c10malformed(seed uint64, idx int) (string, string, []string) {
 	good := genVersion(r, 0, 0, 1, false)
 	file := append([]byte(nil), good.arch.Bytes...)
 	desc := ""
-	switch idx % 6 {
+	switch idx % 8 {
 	case 0:
 		n := r.intn(len(file))
 		file = file[:n]
@@ -136,6 +136,21 @@ func c10malformed(seed uint64, idx int) (string, string, []string) {
 	case 5:
 		file = file[:127+r.intn(int(good.arch.H.RootLen)+1)]
 		desc = "cut inside the root directory"
+	case 6, 7:
+		// a well-formed header over a root directory that announces far more entries than it holds
+		// (uncompressed internals, so that the count is read as written; also behind a gzip wrapper)
+		count := []uint64{1 << 62, 1 << 48, 1 << 40, 1<<64 - 1, 1 << 36}[r.intn(5)]
+		dirb := specPutUvarint(nil, count)
+		dirb = append(dirb, r.bytes(r.intn(6))...)
+		h := good.arch.H
+		h.IntComp = 1
+		if idx%8 == 7 {
+			dirb = gz(dirb)
+			h.IntComp = 2
+		}
+		h.RootOff, h.RootLen = 127, uint64(len(dirb))
+		file = append(append(specEncodeHeader(h), dirb...), file[127:]...)
+		desc = fmt.Sprintf("root directory announcing %d entries in %d bytes", count, len(dirb))
 	}
 	cacheMB := []int{64, 1, 0}[r.intn(3)]
 	sr := newSrvRun(cacheMB)
